@@ -1144,6 +1144,20 @@ def check_c17(idx: Index, tier: str, res: Result) -> None:
     for lp_ in loops[:1]:
         early = [r for r in walk_no_nested(sweep.node) if isinstance(r, ast.Return) and seq(r) < seq(lp_)]
         conds = _natoms(sweep.node, lp_)
+        # a shortcut ("nothing can be due before self._next_expiry") is sound when whatever it reads is kept up to date by *every* method
+        # that puts an instance into the table; then skipping the walk loses nothing
+        guard_tests = [a_ for a_, _t in conds] + [g.test for g in walk_no_nested(sweep.node) if isinstance(g, ast.If) and any(r is x for r in early for b in g.body for x in ast.walk(b))]
+        guard_attrs = {x.attr for t_ in guard_tests for x in ast.walk(t_) if isinstance(x, ast.Attribute) and isinstance(x.value, ast.Name) and x.value.id == "self"
+                       and x.attr != "_instances"}
+        if (early or conds) and guard_attrs:
+            writers = [defs[-1] for nm_, defs in im.methods.items() if any(
+                isinstance(n_, ast.Assign) and any(isinstance(t_, ast.Subscript) and dotted(t_.value) == "self._instances" for t_ in n_.targets)
+                for n_ in walk_no_nested(defs[-1].node))]
+            lagging = [w.qual for w in writers if not all(any(isinstance(n_, (ast.Assign, ast.AugAssign)) and any(
+                dotted(t_) == "self." + a_ for t_ in (n_.targets if isinstance(n_, ast.Assign) else [n_.target])) for n_ in walk_no_nested(w.node)) for a_ in guard_attrs)]
+            if writers and not lagging:
+                early, conds = [], []
+                res.ob("EXPIRY", "sweep shortcut over %s is maintained by every method that adds an instance" % sorted(guard_attrs), True)
         res.check("EXPIRY", "the sweep walks the table on every call", not early and not conds, sweep.loc(early[0] if early else lp_), sweep.qual,
                   norm_stmt(early[0])[:60] if early else "; ".join(src(a_)[:40] for a_, _t in conds),
                   "the sweep is skipped %s: an instance that is due (one that was restored or created on a path that does not maintain that "
